@@ -59,9 +59,26 @@ type VerifSnapshot struct {
 }
 
 func (e *MetaCDC) VerifSnapshot() VerifSnapshot {
+	s, _ := e.verifSnapshot(false)
+	return s
+}
+
+// VerifTrySnapshot is VerifSnapshot that gives up (ok == false) instead of
+// waiting when one of the bookkeeping locks is held.
+func (e *MetaCDC) VerifTrySnapshot() (VerifSnapshot, bool) {
+	return e.verifSnapshot(true)
+}
+
+func (e *MetaCDC) verifSnapshot(try bool) (VerifSnapshot, bool) {
 	s := VerifSnapshot{CollectionNames: map[string][]string{}, ExcludeData: map[string][]string{}, EnableUserRole: map[string]bool{},
 		Tasks: map[string]VerifTask{}, Entities: map[string]VerifEntity{}}
-	e.collectionNames.RLock()
+	if try {
+		if !e.collectionNames.TryRLock() {
+			return s, false
+		}
+	} else {
+		e.collectionNames.RLock()
+	}
 	for k, v := range e.collectionNames.data {
 		c := append([]string(nil), v...)
 		sort.Strings(c)
@@ -76,12 +93,24 @@ func (e *MetaCDC) VerifSnapshot() VerifSnapshot {
 		s.EnableUserRole[k] = v.EnableUserRole
 	}
 	e.collectionNames.RUnlock()
-	e.cdcTasks.RLock()
+	if try {
+		if !e.cdcTasks.TryRLock() {
+			return s, false
+		}
+	} else {
+		e.cdcTasks.RLock()
+	}
 	for k, v := range e.cdcTasks.data {
 		s.Tasks[k] = VerifTask{State: v.State.String(), Reason: v.Reason}
 	}
 	e.cdcTasks.RUnlock()
-	e.replicateEntityMap.RLock()
+	if try {
+		if !e.replicateEntityMap.TryRLock() {
+			return s, false
+		}
+	} else {
+		e.replicateEntityMap.RLock()
+	}
 	for k, v := range e.replicateEntityMap.data {
 		ent := VerifEntity{RefCnt: v.refCnt.Load()}
 		v.taskQuitFuncs.Range(func(id string, _ func()) bool {
@@ -92,5 +121,5 @@ func (e *MetaCDC) VerifSnapshot() VerifSnapshot {
 		s.Entities[k] = ent
 	}
 	e.replicateEntityMap.RUnlock()
-	return s
+	return s, true
 }
